@@ -40,7 +40,7 @@ CLAIMED.update({
  "C19": dict(text="set_operation_mode(m, p, s) then get_operation_mode() == m for every offered mode, eco v1/v2, 745 scaling, ET and ES, for all p, s and all decodable prior group contents, against the assumed register-file inverter; requested power/SoC in group 1 and other groups off; export limit / DoD round trips; encoder lemma exhaustively on the whole grid natively; ECO with a 24/7 prior group is a known finding",
              note="E1/E2 assumptions (inverter model, ES AA55 command semantics)", ref="4/C19"),
 })
-SM = "transport state machine verified as a monitor: every callback and every await-free stretch of send_request/execute/close is a segment executed from an arbitrary state satisfying the object invariant (I1 binding, I2 pending=>timeout armed, I4 retry within budget, I5 fragment state, I6 open transports); awaits havoc what callbacks may change and re-assume the invariant; recursion by contract. "
+SM = "transport state machine verified as a monitor: every callback and every await-free stretch of send_request/execute/close is a segment executed from an arbitrary state satisfying the object invariant (I1 binding, I2 pending=>timeout armed, I4 retry within budget, I5 fragment state, I6 open transports); the base case is proved too: the real __init__ of both protocol classes, run on arbitrary (timeout, retries, port, comm_addr), establishes the invariant with the empty ghost, keeps timeout/retries as given, creates no asyncio object, and leaves no mutable container reachable from a class attribute or shared by two objects; awaits havoc what callbacks may change and re-assume the invariant; recursion by contract. "
 SMNOTE = "trusted: ghost model of asyncio (pyvc/aio_env.py, T4), atomic segments (T5), A1 (data only after a transmission), single requesting task for counting (several callers: lock discipline only); real-time spacing and OS sockets are not decided by the proofs. thorough adds a BOUNDED stand-in that is not counted as proved: all fault scripts of length retries+1 (retries 0..4, 10-letter alphabet, 444 440 histories of three requests) on the real classes over a virtual-clock event loop, judged against the statements, which also covers the real-time clauses"
 CLAIMED.update({
  "C04": dict(text=SM + "C04: transmissions per request <= retries - _retry + 1 on every exit, callbacks never transmit nor refill the budget, a pending future always has a timeout armed, timeouts use self.timeout / the literal 5", note=SMNOTE, ref="4/C04"),
